@@ -26,6 +26,10 @@ def serial_violation(r, raw):
 
 
 def run(ctx):
+    if getattr(ctx, "replay", None):
+        from checks import execreplay
+        if execreplay.replay(ctx, "C06"):
+            return
     ctx.assumptions += [
         "schedules are modelled at task granularity (one task = completion of one field, at every level); finer interleavings rest on the frame theorem as an argument, not a theorem",
         "'no data race' is not a theorem (Go memory model not modelled): observed with the race detector on every run of this check",
